@@ -173,6 +173,32 @@ def _run_impl(cases):
                 ref, sel = reference(c["policy"], env)
             except Exception as e:  # noqa: BLE001
                 ref, sel = ["Raise", type(e).__name__], []
+            # history: the same request on a Guard / compiled function that has already answered sibling requests
+            # (every resource of REQS, and this resource with other attributes / another id) must be answered alike
+            hist = None
+            try:
+                g2 = Guard(c["policy"], strict_types=c["strict"])
+                fn2 = compile_policy(c["policy"])
+                sibs = [dict(x) for x in REQS] + [{**r, "attrs": {"k": 2}}, {**r, "attrs": {}}, {**r, "attrs": {"k": 1}},
+                                                  {**r, "id": "zz"}]
+                for sres in sibs:
+                    try:
+                        await g2.evaluate_async(Subject(id="u"), Action("read"),
+                                                Resource(type=sres["type"], id=sres["id"], attrs=dict(sres["attrs"])), Context({}))
+                        fn2(polgen.env_of_req({**req, "resource": sres}, strict=c["strict"]))
+                    except Exception:  # noqa: BLE001
+                        pass
+                d3 = await g2.evaluate_async(Subject(id="u"), Action("read"),
+                                             Resource(type=r["type"], id=r["id"], attrs=dict(r["attrs"])), Context({}))
+                eng3 = {"decision": d3.effect, "rule_id": d3.rule_id, "obligations": d3.obligations, "reason": d3.reason}
+                raw3 = fn2(env)
+                comp3 = {"decision": raw3["decision"], "rule_id": raw3.get("last_rule_id") or raw3.get("rule_id"),
+                         "obligations": raw3.get("obligations"), "reason": raw3.get("reason")}
+                if eng3 != eng or comp3 != comp:
+                    hist = {"engine_after_history": eng3, "compiled_after_history": comp3}
+            except Exception as e:  # noqa: BLE001
+                if isinstance(eng, dict):
+                    hist = {"engine_after_history": ["Raise", type(e).__name__]}
             # metamorphic: insert non-matching rules (other action / other type / other id) at every position
             meta = []
             extra = [{"id": "zz_a", "effect": "deny", "actions": ["purge"], "resource": {"type": r["type"] if isinstance(r["type"], str) else "doc"}},
@@ -189,7 +215,7 @@ def _run_impl(cases):
                     meta.append({"decision": d2.effect, "rule_id": d2.rule_id, "obligations": d2.obligations})
                 except Exception as e:  # noqa: BLE001
                     meta.append(["Raise", type(e).__name__])
-            res.append((env, eng, comp, ref, meta))
+            res.append((env, eng, comp, ref, meta, hist))
 
     asyncio.run(go())
     return res
@@ -203,7 +229,7 @@ def check_cases(chk, cases, replay=False):
     impl = run_impl(cases)
     lines = [lib.model_call("compiler.decide", c["policy"], env, None) for c, (env, *_r) in zip(cases, impl)]
     outs = [lib.dec(x) for x in lib.run_model(RUNNER, lines)]
-    for c, (env, eng, comp, ref, meta), m in zip(cases, impl, outs):
+    for c, (env, eng, comp, ref, meta, hist), m in zip(cases, impl, outs):
         chk.count("fam:" + c["fam"])
         if m == ["Ood"]:
             chk.count("ood")
@@ -218,6 +244,12 @@ def check_cases(chk, cases, replay=False):
         if proj(eng) != proj(ref) or (isinstance(ref, dict) and ref["rule_id"] is not None and eng["reason"] != ref["reason"]):
             chk.violation("engine decision differs from the reference evaluation of the most specific matching tier",
                           c, impl={"engine": eng, "reference": ref}, model=m)
+            continue
+        if hist:
+            chk.violation("the engine / compiled function answers this request differently after it has answered sibling "
+                          "requests (other resources of the pool, this resource with other attributes or id): its decision "
+                          "no longer equals the reference evaluation for every request", c,
+                          impl={"fresh_engine": eng, "fresh_compiled": comp, **hist, "reference": ref}, model=m)
             continue
         # (c) metamorphic
         bad = [i for i, x in enumerate(meta) if proj(x) != proj(eng)]
